@@ -979,7 +979,7 @@ Definition rel_get (rels : list (str * str)) (id : str) : option str :=
    (commit "fix: xlsx workbooks binding the relationships namespace to another prefix than r failed
    to open": key.prefix().is_some() && key.local_name() == "id").  Flip this one line when that
    commit is in the tree. *)
-Definition rid_fix_applied : bool := false.
+Definition rid_fix_applied : bool := true.
 Definition has_prefix (k : str) : bool :=
   match XmlText.after_colon k with Some _ => true | None => false end.
 Definition is_rid_attr_gen (fixed : bool) (k : str) : bool :=
